@@ -80,7 +80,7 @@ func (nr *netRun) checkC09(x *xfer) {
 				if isTerminal(s) && !isTerminal(prev) {
 					nup := 0
 					for _, c := range n.Host.cm.Log {
-						if !c.Protect && c.Tag == x.chid.String() && c.Peer == other.ID && c.Step <= e.Step && c.Step >= evs[0].Step {
+						if !c.Protect && c.Tag == x.chid.String() && c.Peer == other.ID && c.Step <= e.Step && c.Step >= n.LifeStart[life] {
 							nup++
 						}
 					}
@@ -103,22 +103,25 @@ func (nr *netRun) checkC09(x *xfer) {
 			if isTerminal(last.Snap.Status) {
 				r.Probe("terminal-reached:" + n.Name)
 				// transport resources released: no graphsync request mapped to the channel, no per-channel store registered
-				lastUnprotect := -1
-				for _, c := range n.Host.cm.Log {
-					if !c.Protect && c.Tag == x.chid.String() {
-						lastUnprotect = c.Step
-					}
-				}
+				// F3 class: a resource acquired after the channel had already entered its cleanup status (the
+				// announcement of the entry is an upper bound of when the ending event was applied)
 				cause := ""
-				for _, g := range n.AllGSCalls {
-					if g.Life != n.life || g.Step <= lastUnprotect || lastUnprotect < 0 {
-						continue
+				if entryStep >= 0 {
+					for _, g := range n.AllGSCalls {
+						if g.Life != n.life || g.Step <= entryStep {
+							continue
+						}
+						if g.Kind == "register" && g.Name == "data-transfer-"+x.chid.String() {
+							cause = "|acquired-after-cleanup"
+						}
+						if g.Kind == "request" {
+							if m := dtOf(g.Exts); m != nil && m.TransferID() == x.chid.ID {
+								cause = "|acquired-after-cleanup"
+							}
+						}
 					}
-					if g.Kind == "register" && g.Name == "data-transfer-"+x.chid.String() {
-						cause = "|acquired-after-cleanup"
-					}
-					if g.Kind == "request" {
-						if m := dtOf(g.Exts); m != nil && m.TransferID() == x.chid.ID {
+					for _, w := range n.Wire {
+						if w.Life == n.life && w.Dir == "recv" && w.Carrier == "graphsync" && w.Sum.TID == x.chid.ID && (w.Sum.New || w.Sum.Restart) && w.Step > entryStep {
 							cause = "|acquired-after-cleanup"
 						}
 					}
@@ -299,12 +302,7 @@ func (nr *netRun) checkChannelCount() {
 		if err != nil {
 			continue
 		}
-		opened := 0
-		for _, x := range nr.xs {
-			if x.opened {
-				opened++
-			}
-		}
+		opened := len(nr.xs) // every attempted open may have created its channel before a crash cut the call short
 		if len(m) > opened+nr.extraChannelsAllowed {
 			r.Failf("C10", "extra-channel", n.Name, "node %s lists %d channels but only %d transfers were opened", n.Name, len(m), opened)
 		}
@@ -316,7 +314,7 @@ func (nr *netRun) checkChannelCount() {
 					known = true
 				}
 			}
-			if !known && nr.extraChannelsAllowed == 0 {
+			if !known && nr.extraChannelsAllowed == 0 && !nr.crashed {
 				r.Failf("C10", "unknown-channel", n.Name, "node %s lists channel %v that no open call returned", n.Name, id)
 			}
 		}
